@@ -35,7 +35,7 @@ pub fn param_model(allow_constant: bool) -> impl Strategy<Value = ParamModel> {
         prop_oneof![4 => Just(0u8), 5 => Just(1u8), 2 => Just(2u8), 3 => Just(3u8), 1 => Just(4u8), 1 => Just(5u8)].boxed()
     };
     let phi = prop_oneof![3 => -0.9f64..0.99, 1 => 0.9f64..0.99, 1 => -0.9f64..-0.5];
-    let scale = prop_oneof![3 => Just(1.0f64), 2 => 0.01f64..100.0, 1 => Just(1e-3f64), 1 => Just(1e3f64)];
+    let scale = prop_oneof![6 => Just(1.0f64), 4 => 0.01f64..100.0, 2 => Just(1e-3f64), 2 => Just(1e3f64), 1 => Just(1e-6f64), 1 => Just(1e6f64), 1 => Just(1e-9f64)];
     // |loc|/scale <= 100 (f32 conditioning, as the property's domain states)
     let locratio = prop_oneof![3 => Just(0.0f64), 3 => -3.0f64..3.0, 2 => -100.0f64..100.0, 1 => -5000.0f64..5000.0];
     let spread = prop_oneof![2 => Just(0.0f64), 3 => 0.0f64..3.0, 1 => 3.0f64..30.0];
